@@ -446,6 +446,20 @@ STREAM(vz_norm) {
           norm_vec_case(out, rng, mod, nn, k, limbs, asz, rsz, how, 0, 0, 1);
           if (rsz > 0 || asz > 0) norm_vec_case(out, rng, mod, nn, k, limbs, asz, rsz, how == 2 ? 2 : how, 1, 0, 1);
         }
+        // long inputs, few output limbs: a carry that ripples through all the dropped limbs
+        if (nn == 8 && asz == 0) {
+          for (uint64_t longsz : {(uint64_t)24, (uint64_t)70, (uint64_t)(64 / k + 6)}) {
+            std::vector<int64_t> ll(longsz * nn);
+            for (uint64_t j = 0; j < nn; j++)
+              for (uint64_t i = 0; i < longsz; i++) {
+                int64_t v = (i == longsz - 1) ? ((j & 1) ? -H - 1 : H) : ((j & 1) ? -H : H - 1);  // lowest limb tips the chain over
+                if (j >= 4) v = (j == 4) ? H - 1 : ((j == 5) ? -H : rng.sbits((int)k + 1 > 62 ? 62 : (int)k + 1));
+                ll[i * nn + j] = v;
+              }
+            for (uint64_t rsz : {(uint64_t)1, (uint64_t)2, longsz - 1})
+              norm_vec_case(out, rng, mod, nn, k, ll, longsz, rsz, rng.below(2), 0, 0, 1);
+          }
+        }
         // range variant: begin/step triples
         MODULE* modf = get_module(nn, 0, rng.below(2));
         for (uint64_t step : {(uint64_t)1, (uint64_t)2, (uint64_t)3})
